@@ -139,7 +139,14 @@ func main() {
 				func() {
 					defer func() {
 						if r := recover(); r != nil {
-							u.R.Infra = fmt.Sprintf("harness panic in unit %s: %v\n%s", units[idx].Name, r, debug.Stack())
+							st := string(debug.Stack())
+							// who panicked? the innermost frame below the panic call decides: a function of
+							// the code under test => a finding about that code; harness code => harness fault
+							if fn := panickingFunction(st); strings.HasPrefix(fn, "github.com/vipnode/vipnode/v2/") && !strings.Contains(fn, "/internal/verif/") {
+								u.Violate("panic-in-code-under-test/"+units[idx].Name, fmt.Sprintf("%v in %s (called from the harness outside any recovering oracle)\n%s", r, fn, firstLines(st, 40)), nil)
+							} else {
+								u.R.Infra = fmt.Sprintf("harness panic in unit %s: %v\n%s", units[idx].Name, r, st)
+							}
 						}
 					}()
 					units[idx].Run(u)
@@ -164,4 +171,40 @@ func main() {
 		fmt.Fprintln(os.Stderr, "INFRA: need -list, -serve or -replay")
 		os.Exit(2)
 	}
+}
+
+// panickingFunction returns the function in which the panic recorded in stack trace st was raised
+// (the first frame after the runtime's panic frames).
+func panickingFunction(st string) string {
+	lines := strings.Split(st, "\n")
+	seenPanic := false
+	for _, l := range lines {
+		if strings.HasPrefix(l, "\t") || l == "" {
+			continue
+		}
+		if strings.HasPrefix(l, "panic(") {
+			seenPanic = true
+			continue
+		}
+		if !seenPanic || strings.HasPrefix(l, "runtime.") || strings.HasPrefix(l, "runtime/") {
+			continue
+		}
+		// library frames between the panic and the repository code (math/rand, reflect ...) are skipped:
+		// the first repository or harness frame is the one responsible
+		if strings.HasPrefix(l, "github.com/vipnode/vipnode/v2/") || strings.HasPrefix(l, "main.") {
+			if i := strings.LastIndex(l, "("); i > 0 {
+				return l[:i]
+			}
+			return l
+		}
+	}
+	return ""
+}
+
+func firstLines(s string, n int) string {
+	lines := strings.Split(s, "\n")
+	if len(lines) > n {
+		lines = lines[:n]
+	}
+	return strings.Join(lines, "\n")
 }
